@@ -478,8 +478,10 @@ func find(n *dnode, local string) []*dnode {
 	return out
 }
 
-// shadowDocs: the known finding.  A namespace declaration (or a foreign
-// attribute) spelled like an attribute of the grammar, before or after it.
+// shadowDocs: conformant documents in which a namespace declaration (or a
+// foreign attribute) is spelled like an attribute of the grammar, before or
+// after it (repaired defect eba20a7: encoding/xml matches attribute fields by
+// local name in any namespace).
 func shadowDocs(r request, rng *hx.Rand) [][]byte {
 	var out [][]byte
 	for variant := 0; variant < 4; variant++ {
